@@ -16,14 +16,14 @@ RULE = ('(transfer) a real BTP-U agent segments a generated bundle (1..20000 oct
         'handed to the real _recv_msg of a second agent in a generated permutation (ALL permutations for transfers with <= '
         '5 segments), interleaved with a second transfer on another transfer number or another channel, without advancing '
         'the clock: exactly one item equal to the bundle is queued, and only when the last missing segment arrives.  '
-        '(codec) reference-encoded frames (bundle PDU, transfer segment/end with 0-3 hints of 0-255 octets, definite '
+        '(codec, both directions: decode a reference frame and re-encode it; build the same message set from objects and read it with the independent parser; the same hint may occur twice in a list) reference-encoded frames (bundle PDU, transfer segment/end with 0-3 hints of 0-255 octets, definite '
         'padding, several messages per frame, zero padding) must decode to the same messages and re-encode to the same '
         'octets.  Non-trivial = >= 3 segments in non-index order, or a codec frame with >= 2 messages; distinct by SHA-1.')
 SHRINK_KEYS = ('arrival',)
 SHRINK_KINDS = ('list',)
 ASSUMPTIONS = [
     'bundles have >= 1 octet (scapy builds no payload layer from zero octets and a bundle is never empty)',
-    'without an MTU the bundle stays below the 20-bit message length limit',
+    'without an MTU a bundle beyond the 20-bit message length limit must still leave as well-formed messages (pinned cases around 2^20)',
     'the virtual clock is not advanced between segments (the 1 s receive timer of every segment is outside the property)',
 ]
 EXHAUSTIVE_PART = 'all arrival permutations of the segments of enumerated transfers with <= 5 segments'
@@ -130,6 +130,9 @@ def codec_cases(draw):
         mtype = draw(st.sampled_from([1, 2, 3, 4]))
         hints = [[draw(st.integers(0, 127)), draw(st.binary(max_size=draw(st.sampled_from([0, 1, 4, 255])))).hex()]
                  for _ in range(draw(st.integers(0, 3)))]
+        if hints and draw(st.integers(0, 2)) == 0:
+            # the same hint twice in one list (type and value)
+            hints.insert(draw(st.integers(0, len(hints) - 1)), list(hints[-1]))
         body = draw(st.binary(min_size=1, max_size=draw(st.sampled_from([1, 20, 300, 2000]))))
         if mtype in (3, 4):
             body = struct.pack('>II', draw(st.sampled_from([0, 255, 65536, 2 ** 32 - 1])), draw(st.integers(0, 1000))) + body
@@ -156,6 +159,11 @@ def enumerate_cases(tier):
 def pinned_cases():
     yield 'three-segments-reversed', {'kind': 'transfer', 'mtu': 64, 'length': 120, 'seed': 1, 'xfer': 65536, 'other': 'number',
                                       'arrival': [2, 1, 0, 0, 0, 0]}
+    for length in (2 ** 20 - 5, 2 ** 20 - 1, 2 ** 20, 2 ** 20 + 7):
+        # no MTU configured: one message still cannot declare more than its 20-bit length field holds
+        yield 'no-mtu-%d' % length, {'kind': 'transfer', 'mtu': None, 'length': length, 'seed': 1, 'xfer': 7, 'other': None, 'arrival': [1]}
+    yield 'codec-repeated-hint', {'kind': 'codec', 'zero_pad': 0,
+                                  'msgs': [{'type': 3, 'hints': [[1, 'aa'], [1, 'aa']], 'body': '0000000100000000aabb'}]}
     yield 'codec-hints', {'kind': 'codec', 'msgs': [{'type': 3, 'hints': [[0, '00000064'], [5, '']], 'body': '0000000100000000aabb'},
                                                     {'type': 2, 'hints': [], 'body': '9f00ff'}], 'zero_pad': 3}
 
@@ -191,8 +199,6 @@ def run_transfer(case, out):
     dbus.RECORDER.reset()
     mtu = case['mtu']
     length = max(1, int(case['length']))
-    if mtu is None:
-        length = min(length, 2 ** 20 - 64)
     data = strat9174.content(length, case['seed'])
     sctx, sender = make_agent(mtu)
     rctx, receiver = make_agent(mtu)
@@ -320,6 +326,36 @@ def run_codec(case, out):
         return
     if again != frame:
         out.fail('codec-reencode-differs', 'decode then re-encode changes the frame (%d -> %d octets)' % (len(frame), len(again)))
+    # the other direction: build the message set from objects, as the agent does, and read it with the independent parser
+    from scapy import packet
+    from btpu import messages as bm
+    classes = {1: bm.DefinitePadding, 2: bm.BundlePdu, 3: bm.TransferSeg, 4: bm.TransferEnd}
+    objs = []
+    for msg in case['msgs']:
+        hints = [bm.HintHead(hint_type=ht) / packet.Raw(bytes.fromhex(hv)) if hv else bm.HintHead(hint_type=ht) for ht, hv in msg['hints']]
+        body = bytes.fromhex(msg['body'])
+        if msg['type'] in (3, 4):
+            num, idx = struct.unpack('>II', body[:8])
+            pay = classes[msg['type']](xfer_num=num, seg_idx=idx) / packet.Raw(body[8:])
+        else:
+            pay = classes[msg['type']](body)
+        objs.append(bm.MessageHead(msg_type=msg['type'], hints=hints) / pay)
+    try:
+        built = bytes(bm.MessageSet(msgs=objs))
+    except Exception as exc:
+        out.fail('codec-build-raises:%s' % type(exc).__name__, 'building a message set from objects raises: %s' % exc)
+        return
+    try:
+        back = ref_parse(built)
+    except ValueError as exc:
+        out.fail('codec-build-malformed', 'the independent parser rejects a message set built from objects: %s' % exc)
+        return
+    if back != want:
+        out.fail('codec-build-differs', 'a message set built from objects reads as %s, it was built from %s'
+                 % ([(g['type'], g['flags'], [h[0] for h in g['hints']], len(g['body']) // 2) for g in back],
+                    [(w['type'], w['flags'], [h[0] for h in w['hints']], len(w['body']) // 2) for w in want]))
+    if any(msg['hints'].count(h) > 1 for msg in case['msgs'] for h in msg['hints']):
+        out.label('repeated-hint')
     out.nontrivial = len(case['msgs']) >= 2
     out.label('codec', 'msgs:%d' % len(case['msgs']))
     for msg in case['msgs']:
